@@ -1028,6 +1028,14 @@ for pid_, crate_, ver_ in [(p_, "circular-buffer", "1.2.1") for p_ in ("C03", "C
         must=[r'name = "%s"\nversion = "%s"\nsource = "registry' % (re.escape(crate_), re.escape(ver_))],
         message="Cargo.lock no longer pins %s %s (the version whose behaviour the model assumes)" % (crate_, ver_)))
 
+# the workspace manifest must not redirect a dependency ([patch] / [replace] sections apply to the library's own builds but NOT to
+# the harness, which has its own workspace root: a patched circular-buffer would be invisible to every differential run)
+for pid_ in ("C03", "C04", "C05", "C07", "C12", "C16", "C19", "C20"):
+    ASSERTS.setdefault(pid_, []).append(dict(name="workspace_manifest", file=REPO + "/Cargo.toml",
+        must=[r'(?m)^circular-buffer\s*=\s*\{\s*version\s*=\s*"1\.0\.0",\s*default-features\s*=\s*false\s*\}', r'(?m)^members\s*=\s*\["crates/\*"\]'],
+        mustnot=[r"(?m)^\s*\[patch", r"(?m)^\s*\[replace"],
+        message="the workspace manifest redirects or re-declares a dependency the models assume ([patch]/[replace] section, or the circular-buffer requirement changed)"))
+
 # ---- API-surface inventory of every translated file -------------------------------------------------------
 # The obligations above re-read the bodies they know about.  What they cannot see is a NEW entry point or a replaced
 # dependency: an additional trait impl (`impl Filter<&T> for Schmitt`), an override inside a feature-gated impl that used to be
@@ -1036,13 +1044,42 @@ for pid_, crate_, ver_ in [(p_, "circular-buffer", "1.2.1") for p_ in ("C03", "C
 # `fn reset_mut` overrides (comments and test module stripped, whitespace normalised) must equal the inventory recorded in
 # translator/inventory.json (written from the audited tree by `bodies.py --write-inventory`, never at check time).
 INVENTORY_FILE = os.path.join(os.path.dirname(os.path.abspath(__file__)), "inventory.json")
-def file_inventory(path):
-    from rs2coq import strip_comments as _sc
+TRAIT_METHOD_NAMES = {"filter", "source", "sink", "finalize", "reset", "reset_mut", "with_config", "config", "config_ref", "from_guts", "into_guts", "state_mut",
+                      "clone", "clone_from", "default", "from", "next", "bitor", "peek", "cached", "classes", "eq", "partial_cmp", "fmt", "drop"}
+def file_inventory(path, whole_text=False):
+    """trait-impl headers, imports, and every function that is an ENTRY POINT: all fns of trait impls (also overrides of provided
+    methods such as Iterator::nth), `pub fn`s of inherent impls, and inherent fns of any visibility whose name is that of a trait
+    method of the library (they shadow the trait method in method-call syntax); private helper fns are NOT part of it.  Also the
+    text of every debug_assert! (ignored by the translator, but a panic in debug builds).  For the tiny traits crate the whole
+    normalised text is pinned."""
+    from rs2coq import strip_comments as _sc, balanced as _bal
     txt = _sc(open(path).read()).split("#[cfg(test)]")[0]
     norm = lambda t: " ".join(t.split())
     impls = sorted(norm(m.group(0)) for m in re.finditer(r"\bimpl\b[^{;]*?\bfor\b[^{;]*?(?=\{)", txt))
     uses = sorted(norm(m.group(0)) for m in re.finditer(r"^\s*(?:pub\s+)?(?:use|mod|extern crate)\b[^;{]*(?:\{[^}]*\})?[^;]*;", txt, re.M))
-    return {"trait_impls": impls, "use_and_mod": uses, "reset_mut_overrides": len(re.findall(r"\bfn\s+reset_mut\b", txt))}
+    uses += sorted(norm(m.group(0)) for m in re.finditer(r"#!?\[(?:path\b|cfg_attr\([^\]]*\bpath\b)[^\]]*\]", txt))       # module path overrides
+    entry = []
+    for m in re.finditer(r"\bimpl\b[^{;]*?(?=\{)", txt):
+        head = norm(m.group(0)); is_trait = bool(re.search(r"\bfor\b", head))
+        try:
+            blk = _bal(txt, m.end())
+        except Exception:
+            continue
+        depth = 0; i = 0
+        for fm in re.finditer(r"[{}]|(?:\bpub(?:\([a-z]+\))?\s+)?(?:unsafe\s+)?(?:const\s+)?fn\s+([A-Za-z_][A-Za-z0-9_]*)", blk):
+            tok = fm.group(0)
+            if tok == "{": depth += 1
+            elif tok == "}": depth -= 1
+            elif depth == 1:
+                name = fm.group(1); public = tok.lstrip().startswith("pub")
+                if is_trait or public or name in TRAIT_METHOD_NAMES: entry.append("%s :: %s%s" % (head, "pub " if public else "", name))
+    dbg = sorted(norm(m.group(0)) for m in re.finditer(r"\bdebug_assert(?:_eq|_ne)?!\s*\((?:[^()]|\((?:[^()]|\([^()]*\))*\))*\)", txt))
+    inv = {"trait_impls": impls, "use_and_mod": uses, "reset_mut_overrides": len(re.findall(r"\bfn\s+reset_mut\b", txt)), "entry_fns": sorted(entry), "debug_asserts": dbg}
+    if whole_text:
+        import hashlib
+        inv["text_sha256"] = hashlib.sha256(norm(txt).encode()).hexdigest()
+    return inv
+TRAITS_FILES = [REPO + "/crates/traits/src/" + f_ for f_ in ("lib.rs", "filter.rs", "source.rs", "sink.rs", "finalize.rs")]
 def files_of(pid):
     fs = {e_["file"] for e_ in ENTRIES.get(pid, [])} | {a_["file"] for a_ in ASSERTS.get(pid, []) if a_.get("file")}
     return sorted(f_ for f_ in fs if f_.startswith(REPO) and f_.endswith(".rs"))
@@ -1051,6 +1088,7 @@ def write_inventory():
     inv = {}
     for pid in sorted(set(ENTRIES) | set(ASSERTS)):
         for f_ in files_of(pid): inv[f_[len(REPO):]] = file_inventory(f_)
+    for f_ in TRAITS_FILES: inv[f_[len(REPO):]] = file_inventory(f_, whole_text=True)
     json.dump(inv, open(INVENTORY_FILE, "w"), indent=0, sort_keys=True)
     print("inventory of %d files written to %s" % (len(inv), INVENTORY_FILE))
 def inventory_asserts():
@@ -1058,10 +1096,10 @@ def inventory_asserts():
     if not os.path.exists(INVENTORY_FILE): return
     inv = json.load(open(INVENTORY_FILE))
     for pid in sorted(set(ENTRIES) | set(ASSERTS)):
-        for f_ in files_of(pid):
+        for f_ in files_of(pid) + TRAITS_FILES:
             rel = f_[len(REPO):]
             ASSERTS.setdefault(pid, []).append(dict(name="api_surface_" + rel.replace("/crates/", "").replace("/src/", "_").replace("/", "_").replace(".rs", ""),
-                                                     file=f_, inventory=inv.get(rel), message="the trait impls / imports / reset_mut overrides of %s differ from the audited inventory" % rel))
+                                                     file=f_, inventory=inv.get(rel), message="the trait impls / entry-point functions / imports / debug assertions of %s differ from the audited inventory" % rel))
 inventory_asserts()
 
 # ---- constants compiled into macro invocations ---------------------------------------------------------
@@ -1362,11 +1400,12 @@ def regenerate(pid, ROOT, BUILD):
                 from rs2coq import strip_comments as _sc
                 txt = _sc(txt).split("#[cfg(test)]")[0]
             if "inventory" in a:
-                cur_ = file_inventory(a["file"])
+                cur_ = file_inventory(a["file"], whole_text="text_sha256" in (a["inventory"] or {}))
                 ok_inv = a["inventory"] is not None and cur_ == a["inventory"]
                 if not ok_inv and a["inventory"] is not None:
                     diff_ = []
-                    for k_ in ("trait_impls", "use_and_mod"):
+                    if cur_.get("text_sha256") != a["inventory"].get("text_sha256"): diff_.append("the text of this file of the traits crate changed")
+                    for k_ in ("trait_impls", "use_and_mod", "entry_fns", "debug_asserts"):
                         diff_ += ["+ " + x_ for x_ in cur_[k_] if x_ not in a["inventory"][k_]] + ["- " + x_ for x_ in a["inventory"][k_] if x_ not in cur_[k_]]
                     if cur_["reset_mut_overrides"] != a["inventory"]["reset_mut_overrides"]: diff_.append("fn reset_mut overrides: %d (audited: %d)" % (cur_["reset_mut_overrides"], a["inventory"]["reset_mut_overrides"]))
                     a = dict(a, message=a["message"] + ": " + " | ".join(diff_)[:600])
